@@ -857,7 +857,14 @@ impl Parser {
                         Some(Lexem::Comma) => {}
                         Some(Lexem::RawString(ref ordering_field)) => {
                             let actual_field = match ordering_field.parse::<usize>() {
-                                Ok(idx) => fields[idx - 1].clone(),
+                                Ok(idx) => match idx.checked_sub(1).and_then(|i| fields.get(i)) {
+                                    Some(field) => field.clone(),
+                                    None => {
+                                        return Err(String::from(
+                                            "Error parsing ORDER BY, position is out of range",
+                                        ));
+                                    }
+                                },
                                 _ => {
                                     self.drop_lexem();
                                     self.parse_expr().unwrap().unwrap()
